@@ -765,6 +765,9 @@ func run(bin, prop, tier string, seed int64, replay string, nshards int, race bo
 	if len(uniq) > 0 {
 		cov["violations"] = uniq
 	}
+	if merged.Assumptions == nil {
+		merged.Assumptions = []string{}
+	}
 	ev := map[string]any{
 		"property_id": prop,
 		"tier":        tier,
